@@ -222,6 +222,55 @@ def request_decoder_rejections(ctx, rep, rule):
         rep.violation(rule, "floor-request-decoders", "%d of 2 request decoders found" % n)
 
 
+def header_length_forms(ctx, rep, rule):
+    """BerHeader::from_ber read once per value of the length octet (cells, low tag number): for n in 0..=127 the length is the
+    octet itself (short form, X.690 8.1.3.4) and for n in 129..=255 it is not (long form: it is assembled from the octets
+    that follow).  A boundary that is off by one (`n < 0x7f`) sends n = 127 down the long-form path, where it is read as
+    "127 length octets follow"."""
+    facts = ctx.facts
+    body = facts.body("ber::header::BerHeader::from_ber")
+    if body is None:
+        rep.missing(rule, "BerHeader::from_ber")
+        return
+    prov = flow.Prov(body)
+
+    def is_octet(t):
+        return t[0] == "idx" and flow.mentions(t[1], lambda y: y == ("arg", 1))
+    kinds = {}
+    for n in list(range(0, 128)) + list(range(129, 256)):
+        def ev(t, n=n):
+            if is_octet(t):
+                return 0x02 if t[2] == ("const", 0) else n
+            return None
+        blocks, _ = cells.feasible(body, prov, ev)
+        parm = flow.Prov(body, only_blocks=blocks)
+        lens = []
+        for bi in blocks:
+            for st_ in body.blocks[bi].stmts:
+                if st_["k"] == "assign" and st_["rv"]["k"] == "agg" and (st_["rv"].get("path") or "").endswith("BerHeader"):
+                    fl = dict(zip(st_["rv"].get("fields") or [], st_["rv"].get("ops") or []))
+                    if "length" in fl:
+                        lens.append(parm.operand(fl["length"]))
+        if not lens:
+            kinds[n] = "none"
+            continue
+        ks = set()
+        for t in lens:
+            while t[0] == "cast" or (t[0] == "bin" and t[1] == "BitAnd" and t[3][0] == "const" and isinstance(t[3][1], int) and (t[3][1] & 0x7f) == 0x7f):
+                t = t[1] if t[0] == "cast" else t[2]
+            ks.add("short" if (is_octet(t) and t[2] != ("const", 0)) else "other")
+        kinds[n] = "short" if ks == {"short"} else ("other" if ks == {"other"} else "mixed")
+    if not any(k == "short" for k in kinds.values()) or not any(k == "other" for k in kinds.values()):
+        rep.inconclusive(rule, "BerHeader::from_ber|length forms", "the two forms of the length are not told apart by this reading of the function", body.loc())
+        return
+    bad_short = [n for n in range(0, 128) if kinds[n] != "short"]
+    bad_long = [n for n in range(129, 256) if kinds[n] == "short"]
+    rep.check(rule, "BerHeader::from_ber|short form for 0..=127", not bad_short, "length = the octet for all n <= 127",
+              "for the length octet(s) %s the length is not the octet itself: a short-form length is read as something else" % bad_short[:6], body.loc(), obligation=True)
+    rep.check(rule, "BerHeader::from_ber|long form for 129..=255", not bad_long, "length assembled from the following octets for all n >= 129",
+              "for the length octet(s) %s the octet itself is taken as the length" % bad_long[:6], body.loc(), obligation=True)
+
+
 def pair(ctx, rep, rule):
     """decode(a, &h): a and h are the two components of one BerHeader::from_ber result."""
     facts = ctx.facts
